@@ -111,7 +111,7 @@ FLOORS = {
     "C14": {"evaluations": {"quick": 100000, "thorough": 3000000}, "distinct": 100, "c14_ops_with_sibling_caches": 50000, "sum:c14_clone_re": 100},
     "C15": {"evaluations": {"quick": 2000, "thorough": 20000}, "distinct": 60},
     "C16": {"evaluations": {"quick": 200000, "thorough": 5000000}, "distinct": 1000, "each:c16_fired_": 20, "c16_hash_panic_in_explicit_rebuild": 1000, "c16_hash_panic_in_growing_insert": 300,
-            "c16_further_use_ops": 100000, "c16_dropped_after": 100000, "c16_big_state_injections": 40, "c16_allocation_refused_inside_infallible_rebuild": 2000, "c16_callback_panic_with_allocation_refusal_armed": 2000, "c16_remutate_after_panicked_mutate": 5000},
+            "c16_further_use_ops": 100000, "c16_dropped_after": 100000, "c16_big_state_injections": 40, "c16_allocation_refused_inside_infallible_rebuild": 2000, "c16_callback_panic_with_allocation_refusal_armed": 2000, "c16_remutate_after_panicked_mutate": 5000, "c16_second_panic_in_further_use": 20000},
     "C17": {"evaluations": {"quick": 10000, "thorough": 100000}, "distinct": 2000, "sum:c17_forgot_": 2000, "c17_forgot_drain": 300, "c17_further_use_ops": 2000, "c17_caches_dropped_after_forget": 1000},
     "C18": {"evaluations": 128, "distinct": 128, "c18_table_rows": 64, "c18_rows_expected_send": 8, "c18_rows_expected_not_send": 56, "c18_moved_across_threads": 20, "c18_nonstatic_exercise_runs": 1, "c18_iterator_autotrait_rows": 112, "c18_programs_that_must_not_compile": 20, "c18_programs_rejected_by_the_borrow_checker": 20},
     "C19": {"evaluations": {"quick": 5000, "thorough": 80000}, "distinct": 100, "c19_shared_ops_under_write_trap": 500000, "c19_thread_runs_under_write_trap": 10000, "c19_state_empty": 50, "c19_state_single": 50,
